@@ -73,6 +73,12 @@ CLAIMS = {
          "DESIGN.md §3 C16",
          "Trusted: poulpy-core shape asserts are outside the property; metadata need not be untouched on Err.",
          "MIR dominator-based guard analysis + interprocedural must-define summary + comparison-chain consistency", True),
+
+ "C17": ("other",
+         "The structural invariants the unchecked accessors rely on, decided on MIR: the raw offset of at_ptr/at_mut_ptr plus the limb length stays within n*cols*size under unconditional index asserts (polynomial identity after substituting the asserted maxima), at/raw build slices of exactly n / n*poly_count scalars; every one of the 86 construction sites of the nine layout types and the 19 from_data call sites wraps data with dimensions consistent with it (re-view without altered dimensions, allocation / take_slice of bytes_of of the very same dims, checked sub-slice); dimension fields are mutated only by set_size (guarded by max_size) and the readers (validated, shared with C18); scratch carving ownership, no store through read-only operands, handle immutability (shared rules). Admissibility preconditions and SIMD butterfly index arithmetic are not decided.",
+         "DESIGN.md §3 C17",
+         "Trusted: objects built by the enumerated idioms satisfy n*cols*size*size_of(Scalar) <= data.len(); kernel-internal index arithmetic.",
+         "MIR polynomial bound check of accessor offsets + construction/mutation site idiom matching + shared taint/ownership rules", True),
 }
 NOT_BUILT = {}
 
